@@ -967,6 +967,9 @@ func runC07(c *Ctx) {
 		})
 	}
 
+	// the reset keeps "just the client itself": the tracker's own record is never replaced (shared with C12.R7)
+	c.trackerRules(map[string]string{"R7": "R4", "R6": "R4"})
+
 	// ---- R5
 	c.goCensus("R5", tf)
 }
